@@ -80,6 +80,8 @@ func main() {
 		json.NewEncoder(os.Stdout).Encode(res)
 	case "replay":
 		replay(os.Args[2])
+	case "porcheck":
+		porcheck()
 	default:
 		fatal("unknown command %s", os.Args[1])
 	}
@@ -158,4 +160,63 @@ func replay(path string) {
 		os.Exit(1)
 	}
 	fmt.Println("no violation on this schedule")
+}
+
+// porcheck validates the sleep-set reduction: for small scenarios the set of distinct outcomes with the
+// reduction must equal the set without it (both in fine-grained mode, unbounded).
+func porcheck() {
+	cases := []*Scenario{
+		c01Seq([]string{"c"}, 2, Bounds{-1, -1, -1}),
+		c01Seq([]string{"n"}, 2, Bounds{-1, -1, -1}),
+		c01Seq([]string{"u"}, 2, Bounds{-1, -1, -1}),
+		c03Gate("c", 1, Bounds{-1, -1, -1}),
+		c11Direct(Bounds{-1, -1, -1}),
+		c06Cancel(true, Bounds{-1, -1, -1}),
+	}
+	bad := 0
+	for _, sc := range cases {
+		run := func(por bool) (map[string]bool, *Result) {
+			res := &Result{Scenario: sc.Name}
+			sc2 := *sc
+			sc2.POR = por
+			e := &explorer{sc: &sc2, prop: "POR", res: res, outcomes: map[string]bool{}, nontriv: map[string]bool{}, maxViol: 5, violKeys: map[string]bool{}, fine: true, keys: map[string]bool{}}
+			e.deadline = time.Now().Add(10 * time.Minute)
+			ruleHits = map[string]int{}
+			e.explore(nil)
+			ruleHits = nil
+			return e.keys, res
+		}
+		t0 := time.Now()
+		full, r1 := run(false)
+		t1 := time.Since(t0)
+		t0 = time.Now()
+		red, r2 := run(true)
+		t2 := time.Since(t0)
+		same := len(full) == len(red)
+		for k := range full {
+			if !red[k] {
+				same = false
+			}
+		}
+		status := "EQUAL"
+		if r1.Capped || r2.Capped || r1.EngineError != "" || r2.EngineError != "" {
+			status = "INCOMPLETE " + r1.EngineError + r2.EngineError
+		} else if !same {
+			status = "DIFFERENT"
+			bad++
+		}
+		fmt.Printf("%-60s unreduced: %d execs %d outcomes %.1fs | reduced: %d execs (+%d sleep-blocked) %d outcomes %.1fs | %s\n", sc.Name, r1.Execs, len(full), t1.Seconds(), r2.Execs, r2.SleepBlocked, len(red), t2.Seconds(), status)
+		if !same && status == "DIFFERENT" {
+			n := 0
+			for k := range full {
+				if !red[k] && n < 3 {
+					fmt.Printf("   missing with reduction: %.300s\n", k)
+					n++
+				}
+			}
+		}
+	}
+	if bad > 0 {
+		os.Exit(1)
+	}
 }
